@@ -24,6 +24,14 @@ for line in open(os.path.join(VERIF, "properties.jsonl")):
 if a.files:
     anchors = a.files.split(",")
 
+_done = os.path.join(VERIF, "mutation", a.pid + ".json")
+_run = "/tmp/mutsweep/%s.running" % a.pid
+if (os.path.exists(_done) and time.time() - os.path.getmtime(_done) < 6 * 3600 and not os.environ.get("MSW_FORCE")) or os.path.exists(_run):
+    sys.exit("already done or running: " + a.pid)
+os.makedirs("/tmp/mutsweep", exist_ok=True)
+open(_run, "w").close()
+import atexit
+atexit.register(lambda: os.path.exists(_run) and os.unlink(_run))
 W = "/var/tmp/msw-%s-%d" % (a.pid, os.getpid())
 subprocess.check_call(["git", "-C", "/repo", "worktree", "add", "-q", W, "HEAD"])
 
